@@ -51,6 +51,10 @@ CHECKS = {
   technique="TLA+ spec (Resp.tla: Decode/Encode over byte sequences) model-checked with TLC over every string up to a bound (Total, Stable, RoundTrip); both real decoders, the incremental codec under every fragmentation and the three encoders run on enumerated/targeted/random inputs and every outcome is judged by TLC (RespTrace.tla)",
   text="every byte string of length <= 4 (thorough 5) over the 11-symbol grammar alphabet, targeted length/limit/nesting families (in a separate process so that a stack overflow or runaway allocation is observed as a verdict), every 3-way fragmentation of five valid streams, thousands of value trees through all three encoders, and 0.3-3 million random strings (panic and allocation bound on all, TLC verdict on a sample)",
   note="allocation bound 64*len+4096 via a counting global allocator; RespParser's text conversion compared for ASCII only"),
+ "C16": dict(
+  technique="TLA+ spec (EntryPaths.tla: arity table, RESP<->Lua conversion Conv, script semantics) with Conv facts model-checked by TLC; every frame of a grammar-directed space run through five real entry paths (both parsers on the value, both decoder+parser pipelines on the wire image, upper-cased name) and every 1..3-command program run directly / via redis.call / via redis.pcall on twin executors, judged by TLC (EntryTrace.tla); keyspace traces with every command issued by a script validated against RedisKeyspace.tla modulo Conv (KsTrace.tla)",
+  text="frames: every command name in three letter cases x arities 0..6 x filler classes, every option-keyword word up to length 3 (thorough 4) for 29 command families, non-bulk elements, i64 limits in each numeric position, generator frames (26k quick / 120k thorough) - all outcomes (Debug rendering or error text) must agree on all paths and respect the arity table; scripts: 3k/30k programs after random prefixes - keyspace equal, reply = Conv(direct reply), a script stopped by an error keeps the effects up to it; plus every TLC-exported keyspace scenario and 300/2000 random 40-step runs with each command issued through redis.call/pcall judged by the Redis model",
+  note="RESP<->Lua conversion as pinned by the repository's tests (null -> nil); GETSET model conformance tolerated here (C01 finding); Lua 5.4 table.unpack"),
  "C18": dict(
   technique="TLA+ spec (AntiEntropy.tla) model-checked with TLC incl. liveness (EventuallyInSync under weak fairness); TLC-exported state pairs rebuilt as real replica states on keys colliding in real digest buckets; real StateDigest and run_anti_entropy_sync results judged by TLC (AeTrace.tla)",
   text="design level: digests as injective functions of bucket content, sync rounds under a key limit with a rotating sender are live for Limit 1 and 2, the fixed-prefix sender is not; implementation level: for every exported pair and thousands of random histories (independent maps, shuffled merge orders, hashes with equal outer stamps, tombstones) differs_from / divergent_buckets must equal the truth TLC computes from the observable projection, and every real sync round must move keys only to the merge and end merged within the bound",
